@@ -5,9 +5,24 @@
 -/
 import Xandikos.Theorems.C01Http
 import Xandikos.Store.UidProofs
+import Xandikos.Tie.StrongEtagEq
 
 namespace Xandikos.Theorems.C02
 open Xandikos Xandikos.Store Xandikos.Http Xandikos.Theorems.C01
+
+/-- **the code is the model**: `web.create_strong_etag`, as translated from /repo on this run, is
+    the `strong` every theorem below (and the HTTP spec monitor) is stated with -/
+theorem code_is_model (e : String) :
+    String.ofList (Generated.create_strong_etag e.toList) = strong e := Tie.create_strong_etag_eq e
+
+/-- **the conditional-update path hands the store the tag it stored**: `web.py` passes
+    `extract_strong_etag(etag)` of the strong ETag it has just read as `replace_etag` / `etag`;
+    on the translated code, extracting what `create_strong_etag` produced gives the tag back,
+    for every tag that does not begin or end with a quote (blob ids, md5 digests) -/
+theorem extract_inverts_create (e : List Char) (hne : e ≠ []) (h1 : e.head? ≠ some '"')
+    (h2 : e.getLast? ≠ some '"') :
+    Generated.extract_strong_etag (some (Generated.create_strong_etag e)) = some e :=
+  Tie.extract_create e hne h1 h2
 
 /-- `create_strong_etag` is injective: equal strong tags ⇒ equal content tokens. -/
 theorem strong_injective (a b : String) (h : strong a = strong b) : a = b := by
